@@ -34,6 +34,8 @@ func c11(c *core.Ctx) {
 	c.Rule("C11.writelock", "every write of a chunk to the connection in package uasc executes with the instance mutex held", 2)
 	c.Rule("C11.nounlock", "no function that numbers a message or writes its chunks releases the instance mutex other than by a deferred Unlock (numbering and writing of one message form one critical section)", 3)
 	c.Rule("C11.writers", "channelInstance.sequenceNumber is written only by nextSequenceNumber, the server channel constructor and the renewal copy in open(); the renewal copy executes with the source instance's mutex held", 3)
+	c.Rule("C11.gate", "a sender chooses the token instance (whose counter numbers its chunks) only after it has passed the renewal gate: otherwise a request issued during a renewal is numbered from the superseded instance's stale counter and repeats the number the renewal request used", 1)
+	senderHonoursGate(c, "C11.gate")
 	c.Rule("C11.step", "nextSequenceNumber stores sequenceNumber+1 and, on the wrap branch, a constant in [1,1024)", 2)
 	c.Rule("C11.chunks", "the first chunk's number comes from nextSequenceNumber in newMessage; every later chunk (index > 0, exactly) is renumbered from nextSequenceNumber before it is signed and written", 3)
 
